@@ -5,39 +5,39 @@ import json, subprocess, sys
 CHECKS = {
  # id: (level, technique, text, note, design_ref)
  "C03": ("exploration", "property-based differential testing against a reference codec (proptest) + chunking metamorphic relation",
-         "Generated frames and byte streams (all 256 command bytes, boundary ids and lengths incl. >65535, every single-cut position of short streams, random multi-cuts, raw bytes) are run through the real FrameCodec and compared with an independent reference codec; sampling, exhaustive only on the small enumerated grids.",
+         "Generated frames and byte streams (all 256 command bytes, boundary ids and lengths incl. >65535, multi-frame streams with payloads over the whole 0..65535 range, every single-cut position of short streams, random multi-cuts, raw bytes) are run through the real FrameCodec and compared with an independent reference codec; sampling, exhaustive only on the small enumerated grids.",
          "trusts the reference codec written from the protocol description and bytes/tokio-util", "DESIGN.md §3 C03"),
 }
 CHECKS["C04"] = ("exploration", "property-based testing with a reference wire parser (proptest): generated schemes x generated API call sequences on the real client session over a recording in-memory transport; erase-padding equality",
-         "Generated padding schemes (everything the scheme parser accepts, sizes 1..2^63-1) and call sequences; after every call the recorded wire must parse under the reference codec and, with padding erased, equal the reference encoding of the submitted frames. Sampling.",
+         "Generated padding schemes (everything the scheme parser accepts, sizes 1..2^63-1) and call sequences (incl. answers to a peer's keep-alive requests), also over transports that accept only short writes; after every call the recorded wire must parse under the reference codec and, with padding erased, equal the reference encoding of the submitted frames. Sampling.",
          "trusts the reference codec/scheme reader, tokio's paused clock and current-thread scheduler, the harness pipe", "DESIGN.md §3 C04")
 CHECKS["C05"] = ("exploration", "property-based testing against a nondeterministic reference acceptor for packet shapes (proptest)",
-         "Generated satisfiable schemes and single-writer call sequences with payload sizes around the range bounds; each packet's logged write lengths must be explained by the reference acceptor for its line; preamble padding and server-side no-padding checked in separate families. Sampling.",
+         "Generated satisfiable schemes and single-writer call sequences (local writes and answers to the peer's keep-alive requests) with payload sizes around the range bounds; each packet's logged write lengths must be explained by the reference acceptor for its line; preamble padding and server-side no-padding checked in separate families. Sampling.",
          "trusts the reference acceptor (DESIGN Appendix A.1); a packet = the transport writes logged during one API call of a single writer", "DESIGN.md §3 C05")
 
 def _c(i, level, tech, text, note):
     CHECKS[i] = (level, tech, text, note, f"DESIGN.md §3 {i}")
 
 _c("C01", "exploration", "property-based testing (proptest) on real sessions over a harness-owned in-memory transport: position-keyed round trip, prefix invariant, virtual-time watchdog",
-   "1-4 streams between a real client and a real server session; generated chunk sizes around the 16-bit boundary, fragmentation, capacity, padding scheme, write/read API, forced pre-emptions; every read is checked against position-keyed content, completion under a one-hour virtual watchdog; streams optionally ended by FIN or session close with late readers (nothing queued may be lost at the end). Plus end-to-end tunnels through SOCKS5 / HTTP CONNECT, real client, TLS, real server to a greeting+echo target on loopback. Sampling.",
+   "1-4 streams between a real client and a real server session; generated chunk sizes around the 16-bit boundary, fragmentation, capacity, transports that stall for seconds and recover, padding scheme, write/read API, forced pre-emptions; every read is checked against position-keyed content, completion under a one-hour virtual watchdog; streams optionally ended by FIN or session close with late readers (nothing queued may be lost at the end). Plus end-to-end tunnels through SOCKS5 / HTTP CONNECT, real client, TLS, real server to a greeting+echo target on loopback. Sampling.",
    "trusts tokio's paused clock and current-thread scheduler and the harness pipe; the server session is wired as handle_connection wires it")
 _c("C02", "exploration", "model-based property testing (proptest): generated frame histories from a scripted reference peer vs an id->instance model; instance-keyed payloads",
-   "Generated SYN/PSH/FIN/SYNACK histories over a small id pool (stray, stale, duplicate, reused ids) against a real session in either role, plus 2-8 concurrent streams between two real sessions; every byte is keyed by the stream instance it belongs to. Sampling.",
+   "Generated SYN/PSH/FIN/SYNACK histories over a small id pool (stray, stale, duplicate, reused ids) against a real session in either role (client role also with foreign frames still in flight while open_stream runs under forced pre-emptions), plus 2-8 concurrent streams between two real sessions; every byte is keyed by the stream instance it belongs to. Sampling.",
    "trusts the reference codec and the instance model; frames still in flight when an id is opened are not counted as stray (they are let to be processed first)")
 _c("C06", "exploration", "property-based testing (proptest) of authenticate_client over a fragmenting reader with exhaustive small grids (256 bit flips, 32 prefixes, every truncation length) + end-to-end negatives against the real server on loopback + libFuzzer target auth_preamble",
    "iff-predicate on acceptance, exact consumed-bytes count for every declared padding length (all 65536 in thorough), termination on EOF. End to end: a reference client over TLS sends a wrong / truncated / correct preamble (optionally followed by 6-65 s of silence) and then a complete valid session; a target connection, a stream or any application byte back is allowed iff the hash was right.",
    "trusts sha2, the harness pipe and the reference client; kernel loopback for the end-to-end family")
 _c("C08", "exploration", "property-based testing (proptest): scripted reference peer sends data+FIN back-to-back to a real session; history invariants (EOF after data, reverse direction alive, state released)",
-   "Generated per-stream frame lists followed by FIN in one transport write with generated fragmentation, late/early readers with tiny buffers, reverse traffic before/after the FIN, siblings; both roles. Sampling. End to end (Lab-S): who closes or half-closes first (application, target) with amounts in flight in both directions through SOCKS5 -> client -> server -> target; P2/P3 (all data before the end, reverse direction alive) are armed, P1 (EOF arrives) is the listed known finding.",
+   "Generated per-stream frame lists followed by FIN in one transport write with generated fragmentation, late/early readers with tiny buffers, reverse traffic before/after the FIN, siblings; both roles. Sampling. Server side with a reference client that sends FIN (srv_fin: the target must see every byte and then end-of-stream, not a reset). End to end (Lab-S): who closes or half-closes first (application, target) with amounts in flight in both directions through SOCKS5 -> client -> server -> target; P2/P3 (all data before the end, reverse direction alive) are armed, P1 (EOF arrives) is the listed known finding.",
    "trusts reference codec, H4 table sizes, paused clock")
 _c("C09", "fault_enumeration", "fault enumeration over byte offsets of a recorded fault-free run + property-based sampling of scenario x cause x position x schedule (proptest), virtual-time watchdog",
    "Each cause (peer EOF, three read errors, write error at byte k, flush error, Alert, liveness timeout, owner close, hanging shutdown) is injected at offsets enumerated from the fault-free recording of the same scenario, in both roles, with blocked readers, pending opens and queued writers; release invariants judged after one virtual hour.",
    "blocks forever = not completed after one virtual hour (documented bounds <= 60 s); the session's task-exit is judged only when the peer can observe the close")
 _c("C10", "exploration", "property-based testing (proptest) in virtual time: real Client::create_proxy_stream on an in-memory pooled session vs a reference verdict function of the generated answer timeline",
-   "1-6 racing opens, answers (ok / error text / none) at 0, 1 ms, 29.999 s, 30 s, 30.001 s, duplicated, stray, cross-addressed, long / multi-byte / invalid UTF-8 reasons, peer versions 0-2, session death during the wait (the call must end when the session dies, not at the timeout). Sampling.",
+   "1-6 racing opens (sequentially started or truly overlapping in open_stream over small-capacity transports with forced pre-emptions), answers (ok / error text / none) at 0, 1 ms, 29.999 s, 30 s, 30.001 s, duplicated, stray, cross-addressed, long / multi-byte / invalid UTF-8 reasons, peer versions 0-2, session death during the wait (the call must end when the session dies, not at the timeout). Sampling.",
    "an answer exactly at the 30 s deadline may go either way; H3 gives access to the pool")
 _c("C11", "exploration", "schedule exploration by property-based testing (proptest): generated yield counts at instrumented points + spawn order + transport back-pressure; invariants over the reference-parsed wire vs submission logs",
-   "2-5 writer tasks on one fresh session doing what real callers do (incl. 65530-65540-byte sends), transport stalls of up to 40 s mid-history; wire must parse, equal the submitted multiset, keep per-task FIFO, start with the settings frame and keep SYN before PSH. Sampling of schedules at hook points only.",
+   "2-5 writer tasks on one fresh session doing what real callers do (incl. 65530-65540-byte sends), transport stalls of up to 61 s mid-history, the session's own keep-alive monitor as one more writer; wire must parse, equal the submitted multiset, keep per-task FIFO, start with the settings frame and keep SYN before PSH. Sampling of schedules at hook points only.",
    "schedules are explored at H1 points, transport Pendings and spawn order on a single-threaded runtime; data races below the await level are out of reach")
 _c("C12", "exploration", "model-based property testing (proptest) in virtual time: generated pool histories vs a validity predicate evaluated around every reaper tick",
    "Add/Get/Kill/Advance/Cleanup histories on the real SessionPool with in-memory sessions; predicate: never a closed session from Get, only expired sessions reaped, never below min idle, at most min idle expired survivors, idle_count agrees. Lab-S: a real client with 1 s / 2 s timers holding streams across reaper ticks (in-use sessions must survive: listed known finding, keyed on the in-use model) and bursts of 2-24 simultaneous requests on an empty pool (idle_count and hand-outs vs the model of dialled-and-not-taken sessions).",
@@ -53,14 +53,14 @@ _c("C18", "fault_enumeration", "enumeration of on-disk fault states (every trunc
    "prefixes ending inside the final PEM line may load or not; watcher/debounce not driven")
 
 _c("C07", "exploration", "property-based testing (proptest): round trip + differential against a reference SOCKS address codec (Lab-M), resolver histories against a fake DNS, end-to-end dial histories on loopback",
-   "Destinations of every address type and length through the real client encoder and the real server decoder (also each against the reference), resolver call histories with cache ageing, simultaneous first lookups, and request histories by name through the SOCKS5 and HTTP front-ends (CONNECT, origin-form + Host with another listener's URL in the query, absolute-form) to listeners on distinct loopback addresses/ports: the requested listener, and only it, must be dialled.",
+   "Destinations of every address type and length through the real client encoder and the real server decoder (also each against the reference), resolver call histories with cache ageing, simultaneous first lookups, and request histories by name through the SOCKS5 and HTTP front-ends (CONNECT, origin-form + Host with another listener's URL in the query, absolute-form) to listeners on distinct loopback addresses/ports: the requested listener, and only it, must be dialled. Family `front`: any IPv4/IPv6 address, names of 1..255 bytes and any port through both front-ends and the real client in generated segmentations, the destination read by the reference server (nothing dialled).",
    "fake DNS installed through the public set_custom_dns_servers; H7 ages the cache; kernel loopback for the dial family")
 _c("C16", "exploration", "property-based testing (proptest) of the real SOCKS5 listener on loopback against a reference model of RFC 1928; generated greetings/requests and TCP segmentations",
-   "Generated greetings, requests (all commands, address types, versions) and segmentations against the real front-end -> client -> TLS -> server -> loopback targets, with a neighbour connection, optionally a second connection holding an unfinished greeting throughout, and a fresh connection afterwards. Sampling; negatives are evaluated after the front-end replied or closed.",
+   "Generated greetings, requests (all commands, address types, versions) and segmentations against the real front-end -> client -> TLS -> server -> loopback targets, with a neighbour connection, names of every length 1..255 and arbitrary addresses/ports observed by the reference server (family `front`), optionally a second connection holding an unfinished greeting throughout, and a fresh connection afterwards. Sampling; negatives are evaluated after the front-end replied or closed.",
    "kernel loopback timing; one shared world per worker thread; localhost resolves to 127.0.0.1")
 
 _c("C13", "exploration", "property-based testing (proptest) of request histories through the real SOCKS5 front-end with a counting TCP forwarder in front of the real server; invariants over the connection counts",
-   "Generated sequential/bursty request histories with pauses, pool settings varied (incl. 1 s / 2 s timers); the forwarder counts TLS connections opened and still open and the client's idle_count is compared with the pool model after every step. r2 (second non-overlapping request reuses) is armed; r3+ and the bound are listed known findings with witnesses (sessions are never returned to the pool).",
+   "Generated sequential/bursty request histories with pauses, requests to a closed port and network cuts of every established session, pool settings varied (incl. 1 s / 2 s timers); the forwarder counts TLS connections opened and still open and the client's idle_count is compared with the pool model after every step. r2 (second non-overlapping request reuses) is armed; r3+ and the bound are listed known findings with witnesses (sessions are never returned to the pool).",
    "kernel loopback; forwarder accept count = sessions dialled; pool model: dial inserts, reuse removes, nothing returns (today's lifecycle)")
 _c("C15", "exploration", "property-based testing (proptest): end-to-end datagram sequences in lock-step through create_udp_proxy on loopback, and the server relay fed a reference UDP-over-TCP stream with generated fragmentation",
    "Datagram sizes 1..65507 with keyed contents in both directions through the real client/server; IPv4 and IPv6 targets; server relay alone with cuts inside length prefixes and several packets per chunk; the real client's association against a reference server that echoes each datagram in fragments with 0-2600 ms between the frames; exactly-one/identical/ordered delivery and silence of a decoy socket.",
@@ -70,7 +70,7 @@ _c("C19", "exploration", "property-based testing (proptest) of process-level his
    "one child process per history; the reference server's plaintext view; packets delimited by the child's known call pattern")
 
 _c("C20", "exploration", "mutational property-based testing (proptest) of established real sessions and parsers with panic/allocation/quiescence/watchdog monitors and a sibling-stream oracle; coverage-guided fuzzing (libFuzzer via cargo-fuzz) of the same oracles in the thorough tier",
-   "Generated frame sequences (every command x role, settings/scheme payloads) mutated by bit flips, truncation, duplication, reordering and length corruption, delivered in fragments to a real session with a sibling stream; arbitrary bytes in arbitrary chunking into the destination/UoT parsers; mutated requests against the real HTTP listener with a neighbour. libFuzzer targets session_bytes_server/client, socks_addr_stream, uot_stream run bounded campaigns in thorough; their corpus is replayed in quick.",
+   "Generated frame sequences (every command x role, settings/scheme payloads) mutated by bit flips, truncation, duplication, reordering and length corruption, delivered in fragments to a real session with a sibling stream; arbitrary bytes in arbitrary chunking into the destination/UoT parsers; hostile and mutated header blocks into the HTTP front-end's header-end finder and parse+rewrite functions; mutated requests against the real HTTP listener with a neighbour. libFuzzer targets session_bytes_server/client, socks_addr_stream, uot_stream, http_head_raw run bounded campaigns in thorough; their corpus is replayed in quick.",
    "panics are counted by a process-wide hook; a stuck case is re-run in a child process before it is called a violation; fuzzed destinations never reach a socket (no dial handler in Lab-M; listener cases are confined to harness-owned targets)")
 
 NOT_YET = {}
